@@ -399,9 +399,26 @@ def harness_build(crate, release=False, features=None, no_default=False, extra_r
        Returns (ok, target_bin_dir, log)."""
     ensure_dirs()
     cdir = os.path.join(ROOT, "harness", crate)
+    if COQ != COQ_SRC:
+        # scratch-repo run: build a private copy of the crate (its Cargo.toml points at the scratch repo) in its own
+        # target dir, so that overlapping runs against different repositories never share build state
+        h = os.path.basename(COQ)[4:]
+        priv = os.path.join(CACHE, "harness-%s-%s" % (crate, h))
+        subprocess.run(["rsync", "-a", "--delete", "--exclude", "target/", "--exclude", "Cargo.lock", cdir + "/", priv + "/"], check=True)
+        for root_, _, files_ in os.walk(priv):
+            for f_ in files_:
+                if f_ in ("Cargo.toml", "build.rs"):
+                    pth = os.path.join(root_, f_)
+                    txt = open(pth).read()
+                    txt2 = txt.replace('"/repo"', '"%s"' % REPO).replace('"/repo/', '"%s/' % REPO)
+                    if txt2 != txt:
+                        open(pth, "w").write(txt2)
+        cdir = priv
+        tag = (tag + "-" if tag else "") + h
     lock = os.path.join(cdir, "Cargo.lock")
     if not os.path.exists(lock):
-        shutil.copy(os.path.join(REPO, "Cargo.lock"), lock)
+        src = os.path.join(REPO, "Cargo.lock")
+        shutil.copy(src if os.path.exists(src) else "/repo/Cargo.lock", lock)
     tdir = os.path.join(CACHE, "target-%s%s" % (crate, ("-" + tag) if tag else ""))
     cmd = ["cargo"] + (["+" + toolchain] if toolchain else []) + ["build", "--offline", "--target-dir", tdir]
     if release:
